@@ -4,10 +4,12 @@ import (
 	"errors"
 	"fmt"
 	"reflect"
+	"runtime"
 	"strconv"
 	"strings"
 	"sync"
 	"sync/atomic"
+	"time"
 
 	"github.com/fluffle/goirc/client"
 
@@ -30,6 +32,7 @@ func init() {
 			for _, p := range []int{1, 4, 16} {
 				bs = append(bs, Batch{Name: fmt.Sprintf("p%d", p), Args: map[string]string{"procs": fmt.Sprint(p)}, Race: true, Procs: p, Weight: min(p, 4)})
 			}
+			bs = append(bs, Batch{Name: "teardown-panic", Args: map[string]string{"mode": "tdpanic", "procs": "4"}, Race: true, Procs: 4, Weight: 2})
 			for _, t := range []string{"0", "1"} {
 				bs = append(bs, Batch{Name: "hostile-t" + t, Args: map[string]string{"mode": "hostile", "tracking": t, "procs": "4"}, Race: true, Procs: 4, Weight: 2})
 			}
@@ -194,9 +197,135 @@ func runC16Hostile(c *Ctx) {
 	}
 }
 
+// runC16TeardownPanic: a foreground handler panics while the connection it belongs to is being torn down (the link
+// dropped or Close was called while it was running). The panic goes to the recovery function like any other, and the
+// events that follow - here DISCONNECTED, and everything on the next connection - are still delivered.
+func runC16TeardownPanic(c *Ctx) {
+	rounds := c.Pick(40, 500)
+	logger := rig.NewCapLogger(nil)
+	logger.Discard = func(r *rig.LogRecord) bool { return !(r.Level == "error" && strings.Contains(r.Format, "panic:")) }
+	for idx := 0; idx < rounds; idx++ {
+		if !c.Want("tdpanic", idx) {
+			continue
+		}
+		r := rig.Rand(c.Seed, "C16tdpanic", idx)
+		custom := idx%3 == 2
+		cause := []string{"eof", "close", "readerr", "writeerr"}[r.Intn(4)]
+		c.J.Log("CASE %s custom=%v cause=%s", Case("tdpanic", idx), custom, cause)
+		logger.Reset()
+		var recovered int64
+		s := NewSession(SessionOpts{Flood: true, Tracking: r.Intn(2) == 0, Mutate: func(cfg *client.Config) {
+			if custom {
+				cfg.Recover = func(_ *client.Conn, l *client.Line) {
+					if v := recover(); v != nil {
+						atomic.AddInt64(&recovered, 1)
+					}
+				}
+			}
+		}})
+		entered := make(chan struct{}, 1)
+		gate := make(chan struct{})
+		var after int64
+		s.Conn.HandleFunc("TDP", func(_ *client.Conn, l *client.Line) {
+			if len(l.Args) > 0 && l.Args[0] == "1" {
+				entered <- struct{}{}
+				<-gate
+				panic("c16 panic during teardown")
+			}
+			atomic.AddInt64(&after, 1)
+		})
+		disc := make(chan struct{}, 4)
+		s.Conn.HandleFunc(client.DISCONNECTED, func(_ *client.Conn, l *client.Line) { disc <- struct{}{} })
+		mc, err := s.Connect()
+		if err != nil {
+			c.R.Inconcl("connect: " + err.Error())
+			return
+		}
+		mc.SendLine(":srv TDP 1")
+		if !waitCh(chanOf(entered)) {
+			c.R.Inconcl(fmt.Sprintf("%s: the victim was never entered", Case("tdpanic", idx)))
+			return
+		}
+		closeRet := make(chan struct{})
+		switch cause {
+		case "eof":
+			mc.SendEOF()
+			close(closeRet)
+		case "readerr":
+			mc.SendErr(nil)
+			close(closeRet)
+		case "writeerr":
+			mc.FailWrite(1, nil)
+			s.Conn.Raw("PROBE")
+			close(closeRet)
+		case "close":
+			go func() { s.Conn.Close(); close(closeRet) }()
+		}
+		if r.Intn(3) == 0 {
+			for k := 0; k < r.Intn(100); k++ {
+				runtime.Gosched()
+			}
+		} else {
+			time.Sleep(time.Duration(100+r.Intn(3000)) * time.Microsecond)
+		}
+		close(gate)
+		done := make(chan struct{})
+		go func() { <-disc; <-closeRet; close(done) }()
+		viol := func(kind, detail, dump string) {
+			w := map[string]interface{}{}
+			if dump != "" {
+				w["dump"] = dump
+			}
+			c.R.Violate(rig.Violation{Sig: "c16|teardown-panic-" + kind, Detail: fmt.Sprintf("%s (connection ended by %s while the handler was running, custom recovery: %v)", detail, cause, custom), Case: Case("tdpanic", idx), Witness: w})
+		}
+		if !waitCh(done) {
+			ds := rig.ProveDead(WaitShort)
+			if ds.Dead {
+				viol("blocks-delivery|"+ds.Signature, "after a foreground handler panicked during teardown DISCONNECTED is never delivered (or Close never returns): dead state "+ds.Signature, ds.Dump)
+				s.Release()
+				if c.R.NumViolations() > 6 {
+					return
+				}
+				continue
+			}
+			c.R.Inconcl(fmt.Sprintf("%s: DISCONNECTED not delivered (%s)", Case("tdpanic", idx), ds.Reason))
+			return
+		}
+		c.R.Eval(1)
+		got := atomic.LoadInt64(&recovered)
+		if !custom {
+			waitUntil(func() bool { return logger.Len() >= 1 })
+			got = int64(logger.Len())
+		}
+		if got != 1 {
+			viol("recovery-count", fmt.Sprintf("the recovery function saw %d panics, 1 was thrown", got), "")
+		}
+		// later events: the next connection delivers
+		mc2, err := s.Connect()
+		if err != nil {
+			viol("reconnect", "Connect after the teardown failed: "+err.Error(), "")
+		} else {
+			mc2.SendLine(":srv TDP 2")
+			if !s.FgMarker(mc2) || atomic.LoadInt64(&after) != 1 {
+				viol("later-events-lost", fmt.Sprintf("an event sent on the next connection reached its handler %d times", atomic.LoadInt64(&after)), "")
+			}
+			CloseWatched(s.Conn)
+		}
+		c.R.Class(fmt.Sprintf("teardown|string|%s|cause=%s", map[bool]string{false: "default", true: "custom"}[custom], cause))
+		s.Release()
+		if c.R.NumViolations() > 6 {
+			return
+		}
+	}
+}
+
 func runC16(c *Ctx) {
 	if c.Arg("mode", "") == "hostile" {
 		runC16Hostile(c)
+		return
+	}
+	if c.Arg("mode", "") == "tdpanic" {
+		runC16TeardownPanic(c)
 		return
 	}
 	sessions := c.Pick(60, 500)
@@ -227,7 +356,7 @@ func runC16(c *Ctx) {
 				mu.Unlock()
 			}
 		}
-		// every other custom recovery function is installed through Config() only after all handlers are registered
+		// every other custom recovery function is installed through Config() only after Connect has returned
 		lateRecover := custom && idx%4 >= 2
 		s := NewSession(SessionOpts{Flood: true, Mutate: func(cfg *client.Config) {
 			if custom && !lateRecover {
@@ -294,10 +423,11 @@ func runC16(c *Ctx) {
 				<-release
 			}))
 		}
+		mc, err := s.Connect()
 		if lateRecover {
+			// (REGISTER has been dispatched by now: the function in force is the one found at each panic, not at the first event)
 			s.Conn.Config().Recover = recf
 		}
-		mc, err := s.Connect()
 		if err != nil {
 			c.R.Inconcl("connect: " + err.Error())
 			close(release)
